@@ -338,7 +338,13 @@ def matches_known(prop, signature):
 def run_check(prop, module, tier, seed, replay=None):
     """Top-level flow shared by all properties.  `module` provides run(ctx) and optionally
     search(ctx) (deeper failing-input search) and replay(ctx, payload)."""
+    payload = None
+    if replay:
+        payload = json.load(open(replay))
+        tier = payload.get("tier", tier)
+        seed = payload.get("seed", seed)
     ctx = Ctx(prop, tier, seed)
+    ctx.is_replay = bool(replay)
     try:
         ok, log, build_s = lake_build()
         if not ok:
@@ -346,7 +352,6 @@ def run_check(prop, module, tier, seed, replay=None):
             raise Infra("lake build failed (the Lean sources do not depend on /repo)")
         aud = audit(prop, thorough=(tier == "thorough" and not replay))
         if replay:
-            payload = json.load(open(replay))
             module.replay(ctx, payload)
         else:
             module.run(ctx)
@@ -421,7 +426,8 @@ def decide(ctx, module, aud, build_s):
             )
             nviol = 1
         rc = 1
-    write_evidence(ctx, aud, build_s, violations=nviol)
+    if not getattr(ctx, "is_replay", False):
+        write_evidence(ctx, aud, build_s, violations=nviol)
     for l in out_lines:
         print(l)
     if rc == 0:
